@@ -37,7 +37,7 @@ def run_seed(m, patch, tier="quick"):
         p = subprocess.run(["patch", "-p1", "--no-backup-if-mismatch", "-s", "-i", str(patch)], cwd=tmp, capture_output=True, text=True)
         if p.returncode != 0:
             return dict(seed=m["id"], property=pid, status="not-applicable", detail="patch no longer applies to the current tree: " + (p.stdout + p.stderr)[-200:])
-        env = dict(os.environ, PYVC_REPO=str(tmp), PYVC_OUT=str(tmp / "out"), VERIF_TIER="quick")
+        env = dict(os.environ, PYVC_REPO=str(tmp), PYVC_OUT=str(tmp / "out"), VERIF_TIER="quick", PYVC_TIMEOUT_S="8")
         r = subprocess.run([sys.executable, "-m", "pyvc.check", pid, "--tier", "quick", "--no-selftest"], cwd=VERIF, env=env, capture_output=True, text=True, timeout=3000)
         viol = [ln for ln in r.stdout.splitlines() if ln.startswith("VIOLATION")]
         if r.returncode == 1 and viol:
@@ -54,12 +54,17 @@ def run_all(pid=None, jobs=4):
 
 
 def main():
+    write = "--write" in sys.argv
+    if write:
+        sys.argv.remove("--write")
     ids = sys.argv[1:] or [None]
     res = []
     for pid in ids:
         res.extend(run_all(pid))
     for r in res:
         print(f"SELFTEST {r['status']:14s} {r['seed']:14s} {r['property']}  {r['detail'][:200]}")
+    if write:  # record of the last full self-test (read by tools/seed_table.py)
+        (VERIF / "seeded" / "selftest_last.json").write_text(json.dumps(res, indent=1))
     missed = [r for r in res if r["status"] == "MISSED"]
     print(f"{len(res)} seeds: {sum(r['status'] == 'detected' for r in res)} detected, {len(missed)} missed, {sum(r['status'] == 'not-applicable' for r in res)} not applicable")
     return 1 if missed else 0
